@@ -4,7 +4,7 @@ import os, json
 import vlib
 
 LEVEL = "model_checking"
-INVS = "Frame ExactDomain AliasLaws ComposeLaw BlockedIsPlain Emit"
+INVS = "Frame ExactDomain AliasLaws HistoryLaw ComposeLaw BlockedIsPlain Emit"
 
 
 def cfg_text(fam, maxlen, pal):
@@ -103,7 +103,7 @@ def run(chk):
     chk.extra["cases_with_aliasing"] = sum(1 for c in cases if alias(c) != "none")
     chk.extra["cases_on_empty_vectors"] = sum(1 for c in cases if c["flen"] == 0)
     chk.rule = ("every post-state of spec/VecOps.tla: all shapes of the family (dense lengths 0..L, DenseVectorBlocked<1..4>, "
-                "SparseVector/SparseVectorBlocked over every index subset and three insertion orders, 10 Tuple/Power compositions "
+                "SparseVector/SparseVectorBlocked given by write histories over every index subset (ascending, descending, and three histories with overwritten entries whose superseded value is +2000 / -2000 / 0, i.e. more extreme than every live entry), the call under test issued as the first access after the writes and again after a full read-back, 10 Tuple/Power compositions "
                 "up to depth 2 with component lengths 0..L), every operation, every aliasing pattern the signature admits, "
                 "alpha in {0,1,-1,2,-1/2,-5/2}, three value palettes; each case replayed for double/uint64 and float/uint32 "
                 "(dense and blocked also double/uint32, float/uint64); non-trivial = non-empty vector; distinct = distinct "
@@ -115,6 +115,7 @@ def run(chk):
                        "norm2 / norm2sqr are judged by |r^2 - N| <= (4 + 2 leaves) eps N with N the specification's exact sum of squares",
                        "max/min(_abs)_element of a sparse vector with implicit zeros is generated only where 'over the stored entries' and "
                        "'over all positions' agree (the API documentation does not say which is meant)",
+                       "sparse write histories contain at most three writes of one index and overwrite one index per history",
                        "only the generic (CPU) kernels of kernel/lafem/arch are built (no MKL/CUDA)"]
 
 
